@@ -210,9 +210,16 @@ impl Runner {
         Value::Array(ds.iter().map(|d| d.to_json()).collect())
     }
 
+    pub fn resolve_pub(&mut self, a: &Value, c: usize) -> Uuid {
+        self.resolve(a, c)
+    }
+
     fn resolve(&mut self, a: &Value, c: usize) -> Uuid {
         if let Some(n) = a.get("abs").and_then(|x| x.as_i64()) {
             return self.namer.uuid(n);
+        }
+        if let Some(u) = a.get("uuid").and_then(|x| x.as_str()).and_then(|x| Uuid::parse_str(x).ok()) {
+            return u;
         }
         let sym = a.get("sym").and_then(|x| x.as_str()).unwrap_or("nil");
         let of = a.get("of").and_then(|x| x.as_u64()).map(|x| (x - 1) as usize).unwrap_or(c);
@@ -475,8 +482,10 @@ impl Runner {
             let (tev, _) = t.step(s, idx);
             twin_json = Some(json!({"resp": tev["resp"], "st": tev["st"]}));
         }
-        // divergence from the planned edge?
+        // divergence from the planned edge?  A different RESPONSE stops the tour (later planned
+        // requests quote ids the plan expected to be issued); a different STATE is only recorded.
         let mut div = false;
+        let mut sdiv = false;
         if let Some(exp) = s.get("exp") {
             if let Some(k) = exp["kind"].as_str() {
                 if k != resp.kind {
@@ -493,7 +502,7 @@ impl Runner {
                     let av: Vec<(i64, i64)> = a.v.iter().map(|r| (r.vid, r.parent)).collect();
                     let bv: Vec<(i64, i64)> = b.v.iter().map(|r| (r.vid, r.parent)).collect();
                     if a.e != b.e || a.l != b.l || av != bv || a.s != b.s {
-                        div = true;
+                        sdiv = true;
                     }
                 }
             }
@@ -517,7 +526,7 @@ impl Runner {
                                 || p["s"]["since"].as_i64() != Some(d.s.since)
                                 || p["s"]["day"].as_i64() != Some(d.s.day)))
                     {
-                        div = true;
+                        sdiv = true;
                     }
                 }
             }
@@ -527,7 +536,7 @@ impl Runner {
             "ev": "Op", "run": self.run, "i": idx, "day": self.day,
             "req": req, "resp": resp.to_json(),
             "st": Self::st_json(&ds),
-            "div": div,
+            "div": div || sdiv,
         });
         if op == "Walk" {
             ev["walk"] = walk;
